@@ -30,9 +30,9 @@ PY = "/venv/bin/python"
 FILES = {
     "codebasin/preprocessor.py": ["C03", "C02", "C01", "C04", "C08", "C18", "C15"],
     "codebasin/file_source.py": ["C05", "C17"],
-    "codebasin/file_parser.py": ["C05", "C17", "C01", "C06"],
+    "codebasin/file_parser.py": ["C05", "C17", "C01", "C18", "C06"],
     "codebasin/platform.py": ["C04", "C18", "C08", "C01"],
-    "codebasin/finder.py": ["C10", "C08", "C15", "C06", "C04", "C17", "C14"],
+    "codebasin/finder.py": ["C01", "C10", "C08", "C15", "C06", "C04", "C17", "C14"],
     "codebasin/config.py": ["C13", "C11", "C12", "C18"],
     "codebasin/report.py": ["C16", "C07", "C06", "C14", "C15"],
     "codebasin/__init__.py": ["C09", "C13", "C10", "C16", "C14", "C15", "C11"],
@@ -316,6 +316,46 @@ def checks():
     _cleanup()
 
 
+def run_missing(arg):
+    m, prev = arg
+    d = scratch()
+    orig = apply(m, d)
+    res = dict(prev)
+    caught = None
+    try:
+        for c in checks_for(m):
+            if c in res:
+                continue
+            env = dict(os.environ, VERIF_REPO=d, VERIF_NPROC=os.environ.get("CHECK_NPROC", "4"), VERIF_SHRINK_BUDGET="20")
+            try:
+                p = subprocess.run([os.path.join(VERIF, "check"), c, "--tier", "quick"], cwd=VERIF, env=env, capture_output=True, text=True, timeout=600)
+                v = sum(1 for ln in p.stdout.splitlines() if ln.startswith("VIOLATION"))
+                res[c] = {"exit": p.returncode, "violations": v}
+                if v:
+                    caught = c
+                    break
+            except subprocess.TimeoutExpired:
+                res[c] = {"exit": "timeout"}
+                caught = c + "(hang)"
+                break
+        return m["id"], caught, res
+    finally:
+        restore(m, d, orig)
+
+
+def recheck():
+    """Survivors for which the file -> checks table has grown since they were evaluated: run the checks they lack."""
+    ms = {m["id"]: m for m in load()}
+    have = done("checks.jsonl")
+    todo = [(ms[i], r["results"]) for i, r in have.items() if i in ms and not r["caught_by"] and any(c not in r["results"] for c in checks_for(ms[i]))]
+    print("to re-evaluate:", len(todo), flush=True)
+    with open(os.path.join(OUT, "checks.jsonl"), "a") as fh, cf.ProcessPoolExecutor(int(os.environ.get("W", "4"))) as ex:
+        for mid, caught, res in ex.map(run_missing, todo):
+            fh.write(json.dumps({"id": mid, "caught_by": caught, "results": res}) + "\n")      # a later row for the same id replaces the earlier one
+            fh.flush()
+    _cleanup()
+
+
 def _cleanup():
     for d in os.listdir("/dev/shm"):
         if d.startswith("msw-"):
@@ -356,4 +396,4 @@ def report():
 
 
 if __name__ == "__main__":
-    {"gen": gen, "tests": tests, "checks": checks, "report": report}[sys.argv[1]]()
+    {"gen": gen, "tests": tests, "checks": checks, "recheck": recheck, "report": report}[sys.argv[1]]()
